@@ -8,7 +8,7 @@ use regex::{Regex, RegexSet};
 use sqlparser::ast::Statement::{Delete, Insert, Query, StartTransaction, Update};
 use sqlparser::ast::{
     Assignment, BinaryOperator, Expr, Ident, JoinConstraint, JoinOperator, SetExpr, Statement,
-    TableFactor, TableWithJoins, Value,
+    TableFactor, TableWithJoins, Value, Visit, Visitor,
 };
 use sqlparser::dialect::PostgreSqlDialect;
 use sqlparser::parser::Parser;
@@ -23,6 +23,7 @@ use crate::sharding::Sharder;
 
 use std::collections::BTreeSet;
 use std::io::Cursor;
+use std::ops::ControlFlow;
 use std::time::Duration;
 use std::{cmp, mem};
 
@@ -444,6 +445,26 @@ impl QueryRouter {
         Self::is_mutation_set_expr(q.body.as_ref())
     }
 
+    /// Whether the query, or any query nested in it (a parenthesised SELECT, a
+    /// sub-select, a CTE), has a FOR UPDATE / FOR SHARE clause.
+    fn has_locking_clause(q: &sqlparser::ast::Query) -> bool {
+        struct LockFinder;
+
+        impl Visitor for LockFinder {
+            type Break = ();
+
+            fn pre_visit_query(&mut self, query: &sqlparser::ast::Query) -> ControlFlow<()> {
+                if query.locks.is_empty() {
+                    ControlFlow::Continue(())
+                } else {
+                    ControlFlow::Break(())
+                }
+            }
+        }
+
+        q.visit(&mut LockFinder).is_break()
+    }
+
     fn is_mutation_set_expr(body: &SetExpr) -> bool {
         match body {
             SetExpr::Insert(_) => true,
@@ -566,7 +587,7 @@ impl QueryRouter {
                         }
                     }
 
-                    let has_locks = !query.locks.is_empty();
+                    let has_locks = Self::has_locking_clause(query);
                     let has_mutation = Self::is_mutation_query(query);
 
                     if has_locks || has_mutation {
